@@ -10,6 +10,9 @@
 (*   pages, links   what the reopened index reports                        *)
 (*   hist     index of the completed history (its final pages and links)   *)
 (*   files    (sampled) the decoded torn files, for TornInv                *)
+(*   changed  number of bytes of the two files that differ after the       *)
+(*            queries from what they were after opening (property C14 on   *)
+(*            the index states that only a crash reaches)                  *)
 (***************************************************************************)
 EXTENDS Torn, TLC
 
@@ -32,6 +35,8 @@ Clauses(R) ==
     <<"C18.subset.pages", R.outcome = "opened" => LSet(R.pages) \subseteq LSet(H.pages)>>,
     <<"C18.subset.links", R.outcome = "opened" => LinkLeq(Trip(R.links), Trip(H.links))>>,
     <<"C18.subset.inlinks", R.outcome = "opened" => LinkLeq(Trip(R.inlinks), Trip(H.links))>>,
+    \* C14 on the states only a crash reaches: the queries above changed no byte of either file
+    <<"C14.torn", R.outcome = "opened" => R.changed = 0>>,
     <<"bind.refusal", (R.partial \/ R.missing) = (R.outcome = "refused")>>,
     <<"bind.torninv", R.hasFiles => TornInv(R.trie, R.ls)>>
   >>)
